@@ -932,6 +932,12 @@ fn parent_main(prop: &Property, args: &Args, root: &Path, known: &[KnownEntry], 
                 .env("VERIF_SEED", (seed as i64).to_string())
                 .env("VERIF_ROOT", root)
                 .stdout(std::process::Stdio::null())
+                .stderr(if std::env::var("VERIF_VERBOSE").is_ok() {
+                    std::process::Stdio::inherit()
+                } else {
+                    // proptest's "aborting shrinking" notices and the runtime's stack-overflow banner
+                    std::process::Stdio::null()
+                })
                 .spawn()
                 .expect("spawn worker");
             j.child = Some(child);
